@@ -172,6 +172,10 @@ def conds_c14(tier):
                 variants.append(("none", "0"))
             if s.name in rich:
                 variants += [("struct", "1"), ("none", "1")]
+        if s.name == "chain_sss":
+            variants += [("shape", "2"), ("const", "0")]
+        if s.name in ("fork_unstored_mid", "out_unstored"):
+            variants += [("const", "0")] + ([("struct", "2")] if tier == "thorough" else [])
         for o, tp in variants:
             for sp in _splits(s):
                 cs.append(xhrun.Cond(MOD, "c14_dry", _senv(s, sp, XH_OUT=o, XH_TP=tp), timeout=300,
